@@ -91,6 +91,9 @@ func RunOne(t *testing.T, prop *Property, seed uint64, ch *Chooser, tier string,
 			simsync.Install(nil)
 		}()
 		prop.Run(env, tier)
+		if env.simSeconds == 0 {
+			env.simSeconds = time.Since(env.T0).Seconds()
+		}
 	}
 	if prop.NoBubble {
 		body()
